@@ -251,6 +251,35 @@ pub fn run(ctx: &mut Ctx) {
         }
         ctx.rec.cover(&format!("decompose|{}", k));
     }
+    // (5) rare-event budget: the cheapest generator step, hundreds of millions of times (a part that
+    // is zero once in 2^24 draws breaks "exact size" just as surely as one that is zero every time)
+    let per_case = ctx.n(3_000_000, 30_000_000);
+    for j in 0..64u64 {
+        case += 1;
+        if !ctx.mine(case) {
+            continue;
+        }
+        ctx.rec.case_marker(case, "decompose rare-event budget");
+        let mut v: Vec<usize> = Vec::with_capacity(8);
+        let r = guarded(|| {
+            for d in 0..per_case {
+                let k = 2 + (d + j as usize) % 4;
+                v.clear();
+                CodeGenerator::decompose(&mut v, k);
+                if v.iter().any(|x| *x == 0) || v.iter().sum::<usize>() != k {
+                    return Some((k, v.clone()));
+                }
+            }
+            None
+        });
+        ctx.rec.count("draws", per_case as u64);
+        ctx.rec.count("rare_event_draws", per_case as u64);
+        match r {
+            Err(p) => ctx.rec.violation("C12", &format!("decompose|panic|{}", panic_sig(&p)), &p, ""),
+            Ok(Some((k, v))) => ctx.rec.violation("C12", "decompose|not-a-decomposition", &format!("k={} -> {:?} (rare-event budget)", k, v), ""),
+            Ok(None) => {}
+        }
+    }
     let _ = Rng::new(ctx.seed);
     ctx.rec.checkpoint();
 }
